@@ -48,7 +48,8 @@ def gen_wave_case(rng, **kw):
         nacc = rng.randint(1, 4)
         k.a_ctrl = np.zeros((n, 3), dtype=np.int32)
         for i in range(n):
-            k.a_ctrl[i] = [rng.choice([-1] + list(range(nacc))), rng.randint(0, 3), rng.randint(0, 3)]
+            # weights are signed integers (e.g. rise +1 / fall -1 on one accumulator)
+            k.a_ctrl[i] = [rng.choice([-1] + list(range(nacc))), rng.choice([0, 1, 2, 3, 1, 2, -1, -2]), rng.choice([0, 1, 2, 3, 1, -1, -3])]
         if n > 0 and rng.random() < 0.3:
             # one line with weights beyond the exact range of float32 (the accumulators are integers): sums are still far below 2^31
             i = rng.randrange(n)
